@@ -20,6 +20,10 @@ CHECKS = {
     "C06": {"parts": [FLOW]},
     "C07": {"parts": [FLOW]},
     "C12": {"parts": [FLOW]},
+    "C09": {"rule": "conditional processor: inputs<=4 x all match patterns x output length 0..kept+1 x kind vectors x slice capacity; sandbox: plugin behaviours x context states; reply shapes of processors, destinations and sources explored as answers of the scripted plugins on the real full stack",
+            "parts": [{"name": "condmerge", "pkg": "pkg/verifc09", "harness": "c09cond", "run": "^TestVerifC09Cond$"},
+                      {"name": "sandbox", "pkg": "pkg/plugin/connector/builtin", "harness": "c09sandbox", "run": "^TestVerifC09Sandbox$", "instrument": True},
+                      FLOW]},
     "C08": {"rule": "input enumeration: batch size <=3 x per-record result kinds {pass, filter, error, split2, short-once} at stage 1 x {pass, filter, error} at stage 2 x 1-2 destinations x every single rejected piece; one default-schedule execution of the real full stack per input, compared with a reference interpreter",
             "parts": [{"name": "accounting", "pkg": "pkg/verifflow", "harness": "flow", "run": "^TestVerifC08$", "instrument": True, "shards": 16, "shards_thorough": 16}]},
     "C05": {"parts": [FLOW]},
